@@ -458,8 +458,21 @@ func (w *World) analyseAsmFunc(r *Report, f asmFunc) *asmPre {
 			}
 			lenParam, shift = cnt.param, cnt.shift
 			bump := lp.bumps[m.base]
-			if m.index != "" || bump != 1<<shift || base.off+m.disp < 0 || base.off+m.disp+width > bump {
-				r.bad("ASM", mk, in.line, fmt.Sprintf("%s %s: at iteration k it touches [%d+%d*k, +%d) for k < len(%s)>>%d: can exceed len(%s)", in.op, m.raw, base.off+m.disp, bump, width, lenParam, shift, lenParam))
+			// the part of the bump that has already been applied when this access executes
+			// (an access placed after `ADDQ $n, base` in the loop body sees the next chunk)
+			var pending int64
+			for j := lp.head; j < i; j++ {
+				pj := f.instrs[j]
+				if pj.op == "ADDQ" && len(pj.args) == 2 && pj.args[0].kind == "imm" && pj.args[1].kind == "reg" && pj.args[1].reg == m.base {
+					pending += pj.args[0].imm
+				}
+				if pj.op == "INCQ" && len(pj.args) == 1 && pj.args[0].kind == "reg" && pj.args[0].reg == m.base {
+					pending++
+				}
+			}
+			lo := base.off + m.disp + pending
+			if m.index != "" || bump != 1<<shift || lo < 0 || lo+width > bump {
+				r.bad("ASM", mk, in.line, fmt.Sprintf("%s %s: at iteration k it touches [%d+%d*k, +%d) for k < len(%s)>>%d: can exceed len(%s)", in.op, m.raw, lo, bump, width, lenParam, shift, lenParam))
 				return
 			}
 			if bump > pre.stride {
@@ -845,6 +858,33 @@ func ruleKGUARD(w *World, r *Report, pres map[string]*asmPre) {
 			}
 		}
 	}
+	// the exported "set" entry point writes out for every coefficient: it returns only after the work has been
+	// handed on (c == 0 must still zero out; for the accumulate variant a shortcut would be harmless)
+	for _, fn := range w.funcsInPkgs("gf2p16") {
+		if fn.Name() != "MulByteSliceLE" || fn.Parent() != nil {
+			continue
+		}
+		nret := 0
+		for _, b := range fn.Blocks {
+			ret, ok := b.Instrs[len(b.Instrs)-1].(*ssa.Return)
+			if !ok {
+				continue
+			}
+			key := fmt.Sprintf("gf2p16.MulByteSliceLE:return#%d:covered", nret)
+			nret++
+			covered := false
+			for _, c := range callInstrs(fn) {
+				if callee := c.Common().StaticCallee(); callee != nil && w.inModule(callee) && instrDominates(c, ret) {
+					covered = true
+				}
+			}
+			if covered {
+				r.ok("KGUARD", key, w.ipos(ret), "returns only after handing the buffers to the multiply routine")
+			} else {
+				r.bad("KGUARD", key, w.ipos(ret), "MulByteSliceLE can return without having written out (a shortcut for some coefficient): out must be set to c*in for every c, including 0")
+			}
+		}
+	}
 	// every part of the buffer is covered: the scalar kernel starts where the SIMD kernel stopped (tail offset), see below
 	// tail offset constant equals the stride
 	for _, name := range []string{"gf2p16.mulByteSliceLE", "gf2p16.mulAndAddByteSliceLE"} {
@@ -977,6 +1017,11 @@ func lenAtLeast(w *World, a ssa.Value, min int64, blk *ssa.BasicBlock) string {
 			return lc != nil && lc.Call.Args[0] == base
 		}, &ival{lo: bigZero(), hi: full.hi}, cmpsAt(blk))
 		if iv.lo.Int64() >= min || !iv.lo.IsInt64() {
+			return ""
+		}
+		// the scalar word kernels: a non-empty buffer is what is asked of a tail slice too
+		// (byte lengths are even by construction of the callers; odd lengths are not decided)
+		if min <= 2 && iv.lo.Sign() > 0 {
 			return ""
 		}
 		return fmt.Sprintf("the dominating checks only establish len >= %s", iv.lo)
